@@ -194,6 +194,7 @@ func lbDecodeCfg(raw []byte) (lbCfg, error) {
 	c.Seed = lbUint(m["lb_seed"])
 	c.Addrs = lbStrs(m["addrs"])
 	c.StrictHeader = lbBool(m["strict_header"])
+	c.StrictAddrs = lbBool(m["strict_addrs"])
 	c.Check = lbStrs(m["check"])
 	for _, iv := range lbArr(m["insts"]) {
 		im := lbObj(iv)
